@@ -28,6 +28,11 @@ Theorem C20_french_guillemet_protected : forall l pre post, atoms (fst (french l
 Proof. exact TypoSpaced.C20_french_guillemet_protected_spec. Qed.
 Print Assumptions C20_french_marks_protected.
 Print Assumptions C20_french_guillemet_protected.
+(* English: every straight apostrophe left in the output is one the author protected (everything else was curled) *)
+Theorem C20_english_apostrophes_protected : forall l pre post, atoms (english l) = pre ++ AChar APOS :: post ->
+  exists q a mid, pre = q ++ a :: mid /\ TypoSpaced.protector a = true /\ forallb TypoSpaced.interp mid = true.
+Proof. exact TypoSpaced.C20_english_apostrophes_spec. Qed.
+Print Assumptions C20_english_apostrophes_protected.
 (* non-vacuity: "a!" gets its space, "a<nbsp>!" and "a\~!" get nothing, "«a" gets one after the guillemet *)
 Example C20_spacing_examples :
   fst (french [IText [97; 33]]) = [IText [97]; IEsc TILDE; IText [33]] /\
